@@ -566,8 +566,44 @@ def rule_locator(ctx) -> None:
               f"the locator looks for {sorted(found)} but the writer produces {sorted(written)}: a written snapshot cannot be found (or a never-written name is accepted)")
 
 
+def rule_framing(ctx) -> None:
+    """snapshot files are `header\\nbody`; the reader separates them with str.splitlines(), which also breaks at U+2028,
+    U+2029, U+0085 and the ASCII separators.  That is injective only while the writer's serialiser escapes every non-ASCII
+    character (json.dumps default ensure_ascii=True; control characters are always escaped): a serialiser reached from
+    _canonical_json that passes ensure_ascii=False lets a key or string containing U+2028 cut the body in two."""
+    rdr = ctx.func(SNAP + ":_read_header_payload")
+    wide = [x for x in walk_no_defs(rdr.node) if isinstance(x, ast.Call) and call_tail(x) == "splitlines"]
+    narrow = [x for x in walk_no_defs(rdr.node) if isinstance(x, ast.Call) and call_tail(x) == "split" and x.args and const_str(x.args[0]) == "\n"]
+    ctx.floor("C07.CODEC", "line split sites in the snapshot reader", len(wide) + len(narrow), 1)
+    cj = ctx.func(SNAP + ":_canonical_json")
+    seen, work, dumps = set(), [cj], []
+    for _ in range(3):
+        nxt = []
+        for f in work:
+            if f.qual in seen:
+                continue
+            seen.add(f.qual)
+            for x in walk_no_defs(f.node):
+                if isinstance(x, ast.Call):
+                    if (dotted(x.func) or "").endswith("json.dumps") or dotted(x.func) == "dumps":
+                        dumps.append((f, x))
+                    else:
+                        cal = ctx.prog.callee(f, x)
+                        if cal is not None and cal[0] == "func" and cal[1] in ctx.prog.funcs:
+                            nxt.append(ctx.prog.funcs[cal[1]])
+        work = nxt
+    ctx.floor("C07.CODEC", "json.dumps calls reached from _canonical_json", len(dumps), 1)
+    raw = [(f, x) for f, x in dumps if any(k.arg == "ensure_ascii" and not (isinstance(k.value, ast.Constant) and k.value.value is True) for k in x.keywords)]
+    ok = not wide or not raw
+    ctx.check(ok, "C07.CODEC", f"{cj.qual}/line-framing-injective", raw[0][0].loc(raw[0][1]) if raw else cj.loc(),
+              ("the reader splits only at \\n" if not wide else "every serialiser behind _canonical_json escapes non-ASCII, so the body never contains a character str.splitlines() breaks at"),
+              (f"`{src(raw[0][1])[:70]}` (reached from _canonical_json via {raw[0][0].name}) emits raw non-ASCII while _read_header_payload separates header and body with str.splitlines(): "
+               "a key or string containing U+2028 / U+2029 / U+0085 splits the body, the reader raises (or loads nothing) although baseline and delta are on disk") if raw else "")
+
+
 def run(ctx) -> None:
     rule_codec(ctx)
+    rule_framing(ctx)
     rule_sect(ctx)
     rule_state(ctx)
     rule_locator(ctx)
